@@ -120,10 +120,16 @@ def inBox (cands : List (List Rat)) (lo hi : List Rat) : Bool :=
 
 inductive Ev17 where
   | draw (sides : List Draw17)
-  /-- ODE / stationary step -/
-  | step1 (inDomain : Bool) (resReported resExact : List Rat) (side : Side17)
-  /-- non-stationary step: `(nT × nX)` table, time side and space side -/
-  | step2 (inDomain : Bool) (mseReported mseExact : List (List Rat)) (nX : Nat) (sideT sideX : Side17)
+  /-- the choice of an ODE / stationary step -/
+  | choice1 (inDomain : Bool) (resReported resExact : List Rat) (sel : Nat) (chosen : List Nat)
+  /-- the choice of a non-stationary step on the `(nT × nX)` table -/
+  | choice2 (inDomain : Bool) (mseReported mseExact : List (List Rat)) (nX selT selX : Nat)
+      (tIdx xIdx : List Nat)
+  /-- the stores around a step (one side per store the generator owns) -/
+  | stores (sides : List (String × Side17))
+  /-- over a whole run whose intermediate stores were not observed: the active points at the end
+      are those of the beginning plus the chosen candidates of all steps -/
+  | summary (name : String) (activeB activeA added : List Nat)
 deriving Inhabited
 
 def firstSome : List (Option String) → Option String
@@ -133,15 +139,17 @@ def firstSome : List (Option String) → Option String
 
 def evCheck : Ev17 → Option String
   | .draw sides => firstSome (sides.map drawCheck)
-  | .step1 dom rep ex side =>
+  | .choice1 dom rep ex sel chosen =>
     if !dom then some "candidate-outside-domain"
     else if rep != ex then some "residual-not-the-squared-residual-of-the-current-network"
-    else firstSome [topCheck side.sel ex side.chosen, sideCheck side]
-  | .step2 dom rep ex nX sT sX =>
+    else topCheck sel ex chosen
+  | .choice2 dom rep ex nX selT selX tIdx xIdx =>
     if !dom then some "candidate-outside-domain"
     else if rep != ex then some "residual-not-the-squared-residual-of-the-current-network"
-    else firstSome [pairsCheck ex nX sT.sel sX.sel sT.chosen sX.chosen,
-                    (sideCheck sT).map (· ++ "(times)"), (sideCheck sX).map (· ++ "(omega)")]
+    else pairsCheck ex nX selT selX tIdx xIdx
+  | .stores sides => firstSome (sides.map (fun (nm, s) => (sideCheck s).map (· ++ "(" ++ nm ++ ")")))
+  | .summary nm b a added =>
+    if a.isPerm (b ++ added) then none else some ("active-points-not-initial-plus-chosen(" ++ nm ++ ")")
 
 def holdsC17 (evs : List Ev17) : Option String := firstSome (evs.map evCheck)
 
